@@ -136,8 +136,9 @@ def finish(ctx: Ctx, level: str) -> int:
         "wall_s": round(time.time() - ctx.t0, 2),
         "violations": len(new),
     }
-    EVIDENCE.mkdir(exist_ok=True)
-    (EVIDENCE / f"{ctx.pid}.json").write_text(json.dumps(ev, indent=1, default=str) + "\n")
+    if not os.environ.get("VERIF_NO_EVIDENCE"):      # development aid (mutant runs must not overwrite evidence)
+        EVIDENCE.mkdir(exist_ok=True)
+        (EVIDENCE / f"{ctx.pid}.json").write_text(json.dumps(ev, indent=1, default=str) + "\n")
     for l in lines:
         print(l, flush=True)
     if not new:
